@@ -144,3 +144,14 @@ Fixpoint rk_iter (tab : list (Q * list Q)) (b : list Q) (f : vec -> Q -> vec) (h
   end.
 Definition rk4_tab : list (Q * list Q) := [(0, []); (1 # 2, [1 # 2]); (1 # 2, [0; 1 # 2]); (1, [0; 0; 1])].
 Definition rk4_b : list Q := [1 # 6; 1 # 3; 1 # 3; 1 # 6].
+
+(* ---------------- graph isomorphism given by a table (for the harness) ---------------- *)
+(* nodes of both graphs are 0..n-1; tbl[u] = the node of the copy that carries node u; extended by the identity *)
+Definition phi_of (tbl : list node) (u : node) : node :=
+  if N.ltb u (N.of_nat (length tbl)) then nth (N.to_nat u) tbl u else u.
+Definition iota (n : nat) : list node := map N.of_nat (seq 0 n).
+Definition iso_okb (g g' : graph) (tbl : list node) : bool :=
+  let n := length (gnodes g) in
+  Nat.eqb (length tbl) n && permb tbl (iota n) && permb (gnodes g) (iota n) &&
+  permb (gnodes g') (map (phi_of tbl) (gnodes g)) &&
+  forallb (fun u => permb (gadj g' (phi_of tbl u)) (map (phi_of tbl) (gadj g u))) (gnodes g).
